@@ -39,4 +39,19 @@ theorem lock_modes :
 theorem fanout_facts : Facts.treeRandSynchronised = some 1 ∧ Facts.addPointGoStmts = some 1 ∧
     Facts.treeRandSource = some "myRandom.ThreadsafeNew()" := ⟨rfl, rfl, rfl⟩
 
+/-- **every public method is one critical section of the collection lock**: its first statement takes
+    `c.mutex` and its second defers the release, so everything the method does happens inside -/
+theorem one_critical_section : Facts.publicMethodHeads = some
+    ["GetDocumentCount: c.mutex.RLock(); defer c.mutex.RUnlock()", "ComputeStats: c.mutex.RLock(); defer c.mutex.RUnlock()",
+     "GetOptions: c.mutex.RLock(); defer c.mutex.RUnlock()", "GetAllIDs: c.mutex.RLock(); defer c.mutex.RUnlock()",
+     "Close: c.mutex.Lock(); defer c.mutex.Unlock()", "AddDocument: c.mutex.Lock(); defer c.mutex.Unlock()",
+     "GetDocument: c.mutex.RLock(); defer c.mutex.RUnlock()", "UpdateDocument: c.mutex.Lock(); defer c.mutex.Unlock()",
+     "removeDocument: c.mutex.Lock(); defer c.mutex.Unlock()", "Search: c.mutex.RLock(); defer c.mutex.RUnlock()"] := rfl
+
+/-- **readers do not write**: in the functions that run under the read lock (the reading public methods,
+    `getDocument`, `computeAverageDistance`, the span-file read and iteration functions, `getStream`,
+    `lshTree.search`) no assignment or increment targets anything reachable from the receiver and no
+    mutating method is called (`Lin.Call.WF`) -/
+theorem readers_do_not_write : Facts.readerWrites = some [] := rfl
+
 end Syzgy.Tie.Lock
